@@ -62,11 +62,21 @@ def run(tier, seed, drv):
         res.count("exhausted" if n < limit else "dfs-cut-at-limit")
     # (b) sampled schedules on larger flat and nested simulations
     scns = SC.corpus_scenarios() + SC.scenario_family(rng, tier, count=24 if tier == "quick" else 250)
+    # external stimuli applied between ticks: interrupts on inner and outer devices of nested simulations
+    from .c07 import dev
+    P = 10_000_000
+    for k in range(6 if tier == "quick" else 40):
+        times = sorted(rng.sample(range(1, 40), 3))
+        scns.append({"components": [dev("SRC", cb={"kind": "period", "p": 2 * P}),
+                                    {"name": "SYS", "kind": "sys", "inputs": {"x": ["SRC", "o"]}, "expose": {"y": ["Y", "o"]},
+                                     "components": [dev("X", {"i": ["external", "x"]}), dev("Y", {"i": ["X", "o"]}), dev("Z")]},
+                                    dev("SINK", {"i": ["SYS", "y"]})],
+                     "n_ticks": 6, "stims": [{"real": t * 1_000_000 + 333, "comp": rng.choice(["X", "Y", "Z", "SINK"])} for t in times]})
     for i, scn in enumerate(scns):
         SC.stats_into(res, scn)
         base = run_scenario(scn, bus="sync")
         SC.check_run(scn, base, drv, res, monitors_on=(), corr=("sim",), case_extra={"bus": "sync"})
-        for j in range(3 if tier == "quick" else 6):
+        for j in range((6 if scn.get("stims") else 3) if tier == "quick" else (12 if scn.get("stims") else 6)):
             sd = rng.randrange(1 << 30)
             run_ = run_scenario(scn, bus="held", seed=sd)
             res.case(SC.scn_key(scn) + str(sd), nontrivial=len(run_["trace"].of("update")) > len(S.devices(scn)))
